@@ -6,3 +6,5 @@ INVARIANT BackwardOK
 INVARIANT RoundTripOK
 INVARIANT RankOK
 INVARIANT OtherBackOK
+INVARIANT Drift_Packing
+INVARIANT Drift_CircuitRepr
